@@ -1,7 +1,10 @@
 use std::cmp;
 use std::collections::{BinaryHeap, HashMap};
 use std::mem;
+#[cfg(not(may_verif))]
 use std::sync::atomic::{AtomicUsize, Ordering};
+#[cfg(may_verif)]
+use crate::verif::atomic::{AtomicUsize, Ordering};
 use std::sync::Arc;
 use std::thread;
 use std::time::{Duration, Instant};
@@ -24,6 +27,10 @@ fn get_instant() -> &'static Instant {
 // get the current wall clock in ns
 #[inline]
 pub fn now() -> u64 {
+    #[cfg(may_verif)]
+    if let Some(t) = crate::verif::now_ns() {
+        return t;
+    }
     // we need a Monotonic Clock here
     get_instant().elapsed().as_nanos() as u64
 }
@@ -149,6 +156,8 @@ impl<T> TimeOutList<T> {
 
         // if the interval list is not there, get the write locker to install the list
         // use the write lock protect
+        #[cfg(may_verif)]
+        let _np = crate::verif::no_preempt();
         let mut interval_map_w = self.interval_map.write();
         // recheck the interval list in case other thread may install it
         if let Some(interval_list) = (*interval_map_w).get(&interval) {
@@ -169,6 +178,8 @@ impl<T> TimeOutList<T> {
         (*interval_map_w).insert(interval, interval_list.clone());
         // drop the write lock here
         mem::drop(interval_map_w);
+        #[cfg(may_verif)]
+        drop(_np);
 
         // install the new interval list to the binary heap
         self.install_timer_bh(IntervalEntry {
@@ -188,6 +199,8 @@ impl<T> TimeOutList<T> {
         loop {
             // first peek the BH to see if there is any timeout event
             let mut entry = {
+                #[cfg(may_verif)]
+                let _np = crate::verif::no_preempt();
                 let mut timer_bh = self.timer_bh.lock();
                 let top_entry = timer_bh.peek();
                 match top_entry {
@@ -220,6 +233,8 @@ impl<T> TimeOutList<T> {
 
                 None => {
                     // if the interval list is empty, need to delete it
+                    #[cfg(may_verif)]
+                    let _np = crate::verif::no_preempt();
                     let mut interval_map_w = self.interval_map.write();
                     // recheck if the interval list is empty, other thread may append data to it
                     if entry.list.inner.is_empty() {
@@ -263,6 +278,8 @@ impl<T> TimerThread<T> {
         // wake up the timer thread if it's a new queue
         if is_recal {
             if let Some(t) = self.wakeup.take() {
+                #[cfg(may_verif)]
+                crate::verif::thread_unpark(&t);
                 t.unpark();
             }
         }
@@ -272,12 +289,16 @@ impl<T> TimerThread<T> {
     pub fn del_timer(&self, handle: TimeoutHandle<T>) {
         self.remove_list.push(handle);
         if let Some(t) = self.wakeup.take() {
+            #[cfg(may_verif)]
+            crate::verif::thread_unpark(&t);
             t.unpark();
         }
     }
 
     // the timer thread function
     pub fn run<F: Fn(T)>(&self, f: &F) {
+        #[cfg(may_verif)]
+        use crate::verif::thread;
         let current_thread = Arc::new(thread::current());
         loop {
             while let Some(h) = self.remove_list.pop() {
@@ -289,6 +310,8 @@ impl<T> TimerThread<T> {
 
             if !self.remove_list.is_empty() {
                 if let Some(t) = self.wakeup.take() {
+                    #[cfg(may_verif)]
+                    crate::verif::thread_unpark(&t);
                     t.unpark();
                 }
             }
